@@ -228,7 +228,7 @@ def gen(rng, tier):
     cp = os.path.join(vlib.VERIF, "corpus", "C03", "ops.txt")
     if os.path.exists(cp):
         ops += [l.strip() for l in open(cp) if l.strip() and not l.startswith("#")]
-    nb, ne = (600, 300) if tier == "quick" else (1500, 750)
+    nb, ne = (450, 225) if tier == "quick" else (1500, 750)
     for solver in ["rqb", "fpba1", "fpba2"]:
         for _ in range(nb // 3):
             ops.append(gen_bundle(rng, tier, solver))
